@@ -10,9 +10,17 @@ use crate::{
 };
 use tracing::{trace, warn};
 
+#[cfg(not(feature = "verif-hooks"))]
 use instant::{Duration, Instant};
+#[cfg(feature = "verif-hooks")]
+use crate::verif_hooks::{rand, HashMap, Instant};
+#[cfg(feature = "verif-hooks")]
+use instant::Duration;
 use std::collections::vec_deque::Drain;
+#[cfg(not(feature = "verif-hooks"))]
 use std::collections::{HashMap, HashSet, VecDeque};
+#[cfg(feature = "verif-hooks")]
+use std::collections::{HashSet, VecDeque};
 use std::convert::TryFrom;
 use std::ops::Add;
 
@@ -39,7 +47,10 @@ const QUALITY_REPORT_INTERVAL: Duration = Duration::from_millis(200);
 /// Number of old checksums to keep in memory
 pub const MAX_CHECKSUM_HISTORY_SIZE: usize = 32;
 
+#[cfg_attr(feature = "verif-hooks", allow(unreachable_code))]
 fn millis_since_epoch() -> u128 {
+    #[cfg(feature = "verif-hooks")]
+    return crate::verif_hooks::millis_since_epoch();
     #[cfg(not(target_arch = "wasm32"))]
     {
         std::time::SystemTime::now()
@@ -968,5 +979,162 @@ mod protocol_tests {
 
         assert_eq!(protocol.last_recv_frame(), NULL_FRAME);
         assert!(protocol.event_queue.is_empty());
+    }
+}
+
+#[cfg(feature = "verif-hooks")]
+impl crate::verif_hooks::Digest for InputBytes {
+    fn digest(&self, out: &mut Vec<u8>) {
+        let Self { frame, bytes } = self;
+        frame.digest(out);
+        bytes.digest(out);
+    }
+}
+
+#[cfg(feature = "verif-hooks")]
+impl<T: Config> UdpProtocol<T> {
+    fn verif_state_name(&self) -> &'static str {
+        match self.state {
+            ProtocolState::Initializing => "Initializing",
+            ProtocolState::Synchronizing => "Synchronizing",
+            ProtocolState::Running => "Running",
+            ProtocolState::Disconnected => "Disconnected",
+            ProtocolState::Shutdown => "Shutdown",
+        }
+    }
+
+    pub(crate) fn verif_sizes(&self, spectator: bool) -> crate::verif_hooks::EndpointSizes {
+        crate::verif_hooks::EndpointSizes {
+            addr: format!("{:?}", self.peer_addr),
+            spectator,
+            state: self.verif_state_name(),
+            pending_output: self.pending_output.len(),
+            recv_inputs: self.recv_inputs.len(),
+            pending_checksums: self.pending_checksums.len(),
+            send_queue: self.send_queue.len(),
+            event_queue: self.event_queue.len(),
+            sync_random_requests: self.sync_random_requests.len(),
+            last_recv_frame: self.last_recv_frame(),
+            last_acked_frame: self.last_acked_input.frame,
+            remote_magic: self.remote_magic,
+            magic: self.magic,
+        }
+    }
+
+    /// Every field that can influence future behaviour; maps in ascending key order.
+    pub(crate) fn verif_digest(&self, out: &mut Vec<u8>) {
+        use crate::verif_hooks::{digest_debug, digest_serde, digest_sorted, Digest};
+        let Self {
+            num_players,
+            handles,
+            send_queue,
+            event_queue,
+            state,
+            sync_remaining_roundtrips,
+            sync_random_requests,
+            running_last_quality_report,
+            running_last_input_recv,
+            disconnect_notify_sent,
+            disconnect_event_sent,
+            disconnect_timeout,
+            disconnect_notify_start,
+            shutdown_timeout,
+            fps,
+            magic,
+            peer_addr,
+            remote_magic,
+            peer_connect_status,
+            pending_output,
+            last_acked_input,
+            max_prediction,
+            recv_inputs,
+            time_sync_layer,
+            local_frame_advantage,
+            remote_frame_advantage,
+            stats_start_time,
+            round_trip_time,
+            last_send_time,
+            last_sync_request_time,
+            last_recv_time,
+            pending_checksums,
+            desync_detection,
+        } = self;
+        num_players.digest(out);
+        handles.digest(out);
+        send_queue.len().digest(out);
+        for m in send_queue {
+            digest_serde(m, out);
+        }
+        event_queue.len().digest(out);
+        for e in event_queue {
+            match e {
+                Event::Synchronizing { total, count } => {
+                    out.push(0);
+                    total.digest(out);
+                    count.digest(out);
+                }
+                Event::Synchronized => out.push(1),
+                Event::Input { input, player } => {
+                    out.push(2);
+                    input.verif_digest(out);
+                    player.digest(out);
+                }
+                Event::Disconnected => out.push(3),
+                Event::NetworkInterrupted { disconnect_timeout } => {
+                    out.push(4);
+                    disconnect_timeout.digest(out);
+                }
+                Event::NetworkResumed => out.push(5),
+            }
+        }
+        out.push(match state {
+            ProtocolState::Initializing => 0,
+            ProtocolState::Synchronizing => 1,
+            ProtocolState::Running => 2,
+            ProtocolState::Disconnected => 3,
+            ProtocolState::Shutdown => 4,
+        });
+        sync_remaining_roundtrips.digest(out);
+        let mut nonces: Vec<u32> = sync_random_requests.iter().copied().collect();
+        nonces.sort_unstable();
+        nonces.digest(out);
+        running_last_quality_report.digest(out);
+        running_last_input_recv.digest(out);
+        disconnect_notify_sent.digest(out);
+        disconnect_event_sent.digest(out);
+        disconnect_timeout.digest(out);
+        disconnect_notify_start.digest(out);
+        shutdown_timeout.digest(out);
+        fps.digest(out);
+        magic.digest(out);
+        digest_debug(peer_addr, out);
+        remote_magic.digest(out);
+        peer_connect_status.digest(out);
+        pending_output.digest(out);
+        last_acked_input.digest(out);
+        max_prediction.digest(out);
+        digest_sorted(recv_inputs.iter(), out, |k, v, o| {
+            k.digest(o);
+            v.digest(o);
+        });
+        time_sync_layer.verif_digest(out);
+        local_frame_advantage.digest(out);
+        remote_frame_advantage.digest(out);
+        stats_start_time.digest(out);
+        round_trip_time.digest(out);
+        last_send_time.digest(out);
+        last_sync_request_time.digest(out);
+        last_recv_time.digest(out);
+        digest_sorted(pending_checksums.iter(), out, |k, v, o| {
+            k.digest(o);
+            v.digest(o);
+        });
+        match desync_detection {
+            DesyncDetection::Off => out.push(0),
+            DesyncDetection::On { interval } => {
+                out.push(1);
+                interval.digest(out);
+            }
+        }
     }
 }
